@@ -24,7 +24,9 @@ line protocol of property C12 (harness/c12.py).  Group: `Btc.EC.ops secp256k1`; 
 T is a tree in prefix form, `;`-separated: `L.<version>.<scripthex>` | `N;<T>;<T>`.
 P is a Python value in prefix form, `;`-separated: `I.<int>` | `A.t.<k>` | `A.f.<k>` (other object, truthy / falsy; k names the object on the Python side) |
   `C.<n>.<hex>` (list of n commands serialising to hex) | `E.l` | `E.t` ([] / ()) | `O.l;<P>` | `O.t;<P>` |
-  `T.l;<P>;<P>` | `T.t;<P>;<P>` | `M.l.<k>` | `M.t.<k>` (list / tuple of k+3 elements).
+  `T.l;<P>;<P>` | `T.t;<P>;<P>` | `M.l.<k>` | `M.t.<k>` (list / tuple of k+3 elements) |
+  `S.<k>;<c1>;…;<ck>` (a LIST of k script commands: `i.<int>` | `s.<hex of the ASCII str>` | `b.<hex>` (bytes-like) | `x.<j>` (other object)).
+  ser <P>                          → ok <hex>   (taproot.serialize of an `S.…` list; err cmd = BTClibValueError, err ctype = BTClibTypeError)
 -/
 
 def ops := Btc.EC.ops Btc.EC.secp256k1
@@ -58,6 +60,22 @@ def tree? (s : String) : Option Tree :=
 def isListTok? (s : String) : Option Bool :=
   if s == "l" then some true else if s == "t" then some false else none
 
+def parseCmd (tok : String) : Option Cmd :=
+  match tok.splitOn "." with
+  | ["i", v] => (parseInt? v).map .int
+  | ["s", h] => (fromHex? h).map .str
+  | ["b", h] => (fromHex? h).map .bytes
+  | ["x", _] => some .other
+  | _ => none
+
+def takeCmds : Nat → List String → Option (List Cmd × List String)
+  | 0, rest => some ([], rest)
+  | _ + 1, [] => none
+  | k + 1, tok :: rest =>
+    match parseCmd tok, takeCmds k rest with
+    | some c, some (cs, r) => some (c :: cs, r)
+    | _, _ => none
+
 def parsePy : Nat → List String → Option (PyVal × List String)
   | 0, _ => none
   | _, [] => none
@@ -69,6 +87,10 @@ def parsePy : Nat → List String → Option (PyVal × List String)
       match n.toNat?, fromHex? h with
       | some n, some b => some (.cmds n b, rest)
       | _, _ => none
+    | ["S", k] =>
+      match k.toNat? with
+      | some k => (takeCmds k rest).map fun (cs, r) => (.script cs, r)
+      | none => none
     | ["E", l] => (isListTok? l).map fun l => (.nil l, rest)
     | ["M", l, k] =>
       match isListTok? l, k.toNat? with
@@ -166,6 +188,13 @@ def handle (toks : List String) : String :=
           else "err flatten-disagrees"
         | _, _ => "err no-leaf"
     | _, _ => "bad-op"
+  | ["ser", p] =>
+    match py? p with
+    | some (.script cs) =>
+      match (PyVal.script cs).scriptBytes with
+      | .ok b => s!"ok {toHex b}"
+      | .error e => rErr e
+    | _ => "bad-op"
   | ["pytree", p] =>
     match py? p with
     | some v => rTree (treeHelperPy TH v)
